@@ -489,7 +489,12 @@ class AttributeStub(Stub):
         self.typ = typ
 
     def render(self, prefix: str = "") -> str:
-        return f"{prefix}{self.name}: {render_annotation(self.typ)}"
+        s = render_annotation(self.typ)
+        # The stub imports the names this annotation needs (see
+        # build_module_stubs), so, like in FunctionStub, drop the module prefixes.
+        for module in get_imports_for_annotation(self.typ):
+            s = re.sub(r"(?<![\w.])" + re.escape(module + "."), "", s)
+        return f"{prefix}{self.name}: {s}"
 
     def __repr__(self) -> str:
         return f"AttributeStub({self.name}, {self.typ})"
@@ -858,6 +863,10 @@ def build_module_stubs(entries: Iterable[FunctionDefinition]) -> Dict[str, Modul
         # Import TypedDict, if needed.
         if entry.typed_dict_class_stubs:
             imports["mypy_extensions"].add("TypedDict")
+            # ... and whatever the fields of the generated classes refer to.
+            for class_stub in entry.typed_dict_class_stubs:
+                for attribute_stub in class_stub.attribute_stubs:
+                    imports.merge(get_imports_for_annotation(attribute_stub.typ))
         func_stub = FunctionStub(
             name, entry.signature, entry.kind, list(imports.keys()), entry.is_async
         )
